@@ -174,6 +174,43 @@ def run(pid: str, tier: str, seed: int, replay_file: str | None, only: str | Non
     verdicts = smt.discharge(all_obs, tier) if all_obs else []
     smt_s = time.time() - t_smt
 
+    # ---- bounded mode (DESIGN §2.1 step 6): quantified queries the solvers leave `unknown` are
+    # re-generated with index quantifiers expanded over lists of length <= K (decidable); a `sat`
+    # there yields a concrete model: it settles a canary, or is replayed natively for an obligation.
+    bounded_canary_ok: set[str] = set()
+    bounded_models: dict[str, list[Obligation]] = {}
+    sat_canaries = {v.ob.name for v in verdicts if v.ob.kind == "canary" and v.result == "sat"}
+    need = {v.ob.name for v in verdicts if v.result == "unknown" and v.ob.kind != "cover" and v.ob.name not in sat_canaries}
+    bounded_note = ""
+    if need:
+        t_b = time.time()
+        for K in (3, 6):
+            if not need:
+                break
+            obs2: list[Obligation] = []
+            for u in units:
+                if not any(ob_unit[id(o)] is u for o in all_obs if o.name in need):
+                    continue
+                try:
+                    res2 = Explorer(u.run, max_paths=u.max_paths, label=u.name + f" [bounded K={K}]", bound_k=K).explore()
+                except Unsupported:
+                    continue
+                for r in res2:
+                    for ob in r.obligations:
+                        ob.name = ob.name if ob.name.startswith(pid) else f"{pid}.{ob.name}"
+                        if ob.name in need:
+                            ob_unit[id(ob)] = u
+                            obs2.append(ob)
+            for v2 in smt.discharge(obs2, tier) if obs2 else []:
+                if v2.result != "sat":
+                    continue
+                if v2.ob.kind == "canary":
+                    bounded_canary_ok.add(v2.ob.name)
+                    need.discard(v2.ob.name)
+                else:
+                    bounded_models.setdefault(v2.ob.name, []).append(v2.ob)
+        bounded_note = f"bounded mode consulted for {len(bounded_canary_ok) + len(bounded_models)} names in {time.time() - t_b:.1f}s"
+
     violations: list[str] = []
     known_lines: list[str] = []
     n_oblig = n_disch = n_canary = n_canary_ok = n_cover = n_cover_ok = n_known = 0
@@ -189,7 +226,7 @@ def run(pid: str, tier: str, seed: int, replay_file: str | None, only: str | Non
         per_ob.append(rec)
         if ob.kind == "canary":
             # a canary (deliberately wrong claim) must be refuted on at least one path
-            canary_results.setdefault(ob.name, []).append(v.result)
+            canary_results.setdefault(ob.name, []).append("sat" if ob.name in bounded_canary_ok else v.result)
             continue
         if ob.kind == "cover":
             n_cover += 1
@@ -207,7 +244,31 @@ def run(pid: str, tier: str, seed: int, replay_file: str | None, only: str | Non
             n_disch += 1
             continue
         u = ob_unit[id(ob)]
-        if v.result == "unknown":
+        model = None
+        rr = None
+        inputs: dict[str, Any] = {}
+        if v.result == "unknown" and ob.name in bounded_models and u.replay is not None:
+            # bounded-mode counter-models: keep one only if it reproduces natively
+            for ob2 in bounded_models[ob.name][:4]:
+                m2 = smt.get_model(ob2)
+                if m2 is None:
+                    continue
+                cand = {}
+                for nm, val in ob2.inputs.items():
+                    try:
+                        cand[nm] = m2.value(val)
+                    except Exception as e:
+                        cand[nm] = f"<unavailable: {e}>"
+                try:
+                    r2 = u.replay(cand, ob2)
+                except Exception as e:
+                    r2 = api.ReplayResult(False, f"replay harness raised {type(e).__name__}: {e}")
+                if r2.confirmed:
+                    inputs, rr, model = cand, r2, m2
+                    break
+        if rr is not None:
+            pass
+        elif v.result == "unknown":
             # A proof obligation the solvers no longer accept.  If it was discharged on the pinned tree
             # (committed baseline), the failed obligation *is* the violation (deductive verification:
             # not proved = not accepted); a failing input is searched for, and if none is found the
@@ -219,15 +280,13 @@ def run(pid: str, tier: str, seed: int, replay_file: str | None, only: str | Non
             model = None
         else:
             model = smt.get_model(ob)
-        inputs: dict[str, Any] = {}
-        if model is not None:
+        if model is not None and rr is None:
             for nm, val in ob.inputs.items():
                 try:
                     inputs[nm] = model.value(val)
                 except Exception as e:  # pragma: no cover - model completion corner cases
                     inputs[nm] = f"<unavailable: {e}>"
-        rr = None
-        if model is None and u.search is not None:
+        if rr is None and model is None and u.search is not None:
             try:
                 found = u.search(ob, seed)
             except Exception as e:
